@@ -430,7 +430,20 @@ pub fn p_heads(heads: &[HeadItem], env: &VarEnv) -> String {
                .join(", ");
             format!("{rel}({a})")
          },
-         HeadItem::MacroCall { name, args } => format!("{name}!({})", p_macro_args(args, env)),
+         HeadItem::MacroCall { name, args } => {
+            // an expression argument of a head macro may be used by several head clauses of the expansion: a by-value
+            // variable of a non-Copy type is passed as `x.clone()`, as a user has to write it
+            let a = args
+               .iter()
+               .map(|a| match a.expr.as_ref() {
+                  Some(Expr::Var(x)) if !a.is_ident && env.get(x).map_or(false, |i| (!i.is_ref || i.unknown_ref) && !i.ty.is_copy()) =>
+                     format!("{x}.clone()"),
+                  _ => p_macro_args(std::slice::from_ref(a), env),
+               })
+               .collect::<Vec<_>>()
+               .join(", ");
+            format!("{name}!({a})")
+         },
       })
       .collect::<Vec<_>>()
       .join(", ")
@@ -521,6 +534,7 @@ pub struct PrintOpts {
    /// emit a decoy earlier declaration (different initialiser) for these relations: last one must win
    pub redeclare: Vec<String>,
    /// relations that get an earlier declaration WITH a (decoy) initialiser and a final declaration WITHOUT one
+   #[serde(default)]
    pub redeclare_noinit: Vec<String>,
 }
 
